@@ -216,9 +216,19 @@ def c18(ck):
                 else:
                     s.append(rq(iface, [rng.choice(["r", "e", "r0", "inv"])], {"n": i, "s": "é\"x"}))
             seqs.append(s)
+        # the bridge's routing cache (last interface, address): every sequence of length 3 over calls to service a,
+        # to service b, the service-info query (answered by the resolver) and a call to the resolver itself
+        n_fixed = len(seqs)
+        import itertools as _it
+        alpha = {"A": lambda i: rq(A, ["r"], i), "B": lambda i: rq(Bn, ["r"], i), "I": lambda i: req("org.varlink.service.GetInfo"),
+                 "R": lambda i: req("org.varlink.resolver.Resolve", {"interface": A})}
+        cache_seqs = []
+        for pat in _it.product("ABIR", repeat=3):
+            cache_seqs.append([alpha[x](i) for i, x in enumerate(pat)])
+        seqs += cache_seqs
         modes = ["resolver", "connect", "activate", "bridge"]
         for si, seq in enumerate(seqs):
-            for mode in modes:
+            for mode in (modes if si < n_fixed else ["resolver"]):
                 if mode != "resolver":
                     # a direct connection reaches one service only: keep the requests for interface a (and service-info)
                     sq = [r for r in seq if not r["method"].startswith(Bn)]
@@ -226,7 +236,7 @@ def c18(ck):
                         continue
                 else:
                     sq = seq
-                for behaviour in (("pipelined", "one-at-a-time") if si < 4 or not quick else ("pipelined",)):
+                for behaviour in (("pipelined", "one-at-a-time") if si < 4 or (not quick and si < n_fixed) else ("pipelined",)):
                     args = {"resolver": ["--resolver", sv.r, "bridge"], "connect": ["bridge", "--connect", sv.a],
                             "activate": ["--activate", "%s --listen $VARLINK_ADDRESS" % harness_bin("h_actsrv"), "bridge"],
                             "bridge": ["--bridge", "%s --stdio" % harness_bin("h_actsrv"), "bridge"]}[mode]
@@ -237,6 +247,8 @@ def c18(ck):
                         m = r["method"]
                         if mode == "resolver" and m == "org.varlink.service.GetInfo":
                             tgt, r2 = sv.r, dict(r, method="org.varlink.resolver.GetInfo")
+                        elif mode == "resolver" and m.startswith("org.varlink.resolver."):
+                            tgt, r2 = sv.r, r
                         elif mode == "resolver" and m == "org.varlink.service.GetInterfaceDescription":
                             tgt, r2 = (sv.a if r["parameters"]["interface"] == A else sv.b), r
                         elif mode == "resolver":
